@@ -83,6 +83,12 @@ def run_task(eng, prover, task, out):
                             z3.And(x.g["View"] == pre.g["View"], x.g["Cell"] == pre.g["Cell"], x.g["Res"] == pre.g["Res"]))
                 prover.structural(f"C18/{base}/stored-on-the-object-itself",
                                   any(e[0] == "object-setattr-symbolic" for e in x.events) and not isinstance(res, Raise), x)
+            # every settable property of the class is reachable through attribute assignment, i.e. protected
+            for kcls in s.cls.mro:
+                for pname, pr in getattr(kcls, "properties", {}).items():
+                    if "set" in pr and role == "root":
+                        prover.structural(f"C18/{cname}/settable-property-is-protected:{pname}",
+                                          pname in prot.v or pname.startswith("__"), None, {"defined_in": kcls.name})
             # obj[<protected>] = v  never disturbs the object's internals
             fi2 = eng.P.lookup_method(s.cls, "__setitem__")
             base2 = f"{cname}.__setitem__@{fi2.qualname}/{r_}+protected-name"
